@@ -841,18 +841,22 @@ def exHidden : Project := [
   ⟨[['d','d']], false, [.importFrom 0 [['p']] ['q','q'] (some ['z']), .classDef ['K'] [] []]⟩,
   ⟨[['q','q']], false, [.importFrom 0 [['d','d']] ['K'] none, .allAssign [['K']]]⟩ ]
 
-/-- **why `pkgFromOk` is part of `WFr`**: `from p import qq` makes pydoctor look up `p.qq`; `find_object` falls back to the
-bare name `qq` and `getProcessedModule` then processes the unrelated root module `qq` while `dd` is still being
-processed — a cycle the import statements do not show.  Every other component of `WFr` holds, both runs are clean and
-cover every module, and where `K` is documented depends on the processing order.  (Python cannot import `dd` at all —
-`p` has no attribute `qq` — so this is outside the property's quantifier: an observation about pydoctor, not a violation.) -/
-theorem pkgFromOk_needed_counterexample :
-    (modulesOk exHidden && pathsUnique exHidden && importsOk exHidden [0, 1, 2] && boundOnce exHidden [0, 1, 2] &&
-      namesUnique exHidden && basesNonempty exHidden && noStarInClass exHidden && rootsReserved exHidden &&
-      namesOk exHidden && reexportShape exHidden && modNamesOk exHidden) = true ∧
-    pkgFromOk exHidden [0, 1, 2] = false ∧
+/-- HISTORICAL (before fix 996ac8b) — the bare-name fallback of `find_object`: `from p import qq` makes pydoctor look
+up `p.qq`; the package `p` binds nothing called `qq`, `expandName` handed `qq` back as a free name and the unrelated
+root module `qq` (object 2) was found — `getProcessedModule` then processed it while `dd` was still being processed, a
+cycle the import statements do not show, and where `K` was documented depended on the processing order (replayed on
+real pydoctor by the harness: `order-dependent:find-object-bare-name`).  With the guard the lookup is a `LookupError`. -/
+theorem find_object_bare_name_counterexample :
+    Names.findObjectOld (envOf (run exHidden [0])) [['p'], ['q','q']] = .obj 2 ∧
+    Names.findObject (envOf (run exHidden [0])) [['p'], ['q','q']] = .lookupError := by decide +kernel
+
+/-- the same project now: inside `WFr` (`pkgFromOk` no longer has to keep root-module names out of
+`from <package> import n`), both runs clean, and `K` is documented in `qq` whatever the order.  (Python cannot import
+`dd` at all — `p` has no attribute `qq`.) -/
+theorem hidden_cycle_order_independent :
+    WFr exHidden [0, 1, 2] = true ∧
     (run exHidden [1, 2, 0]).bad = false ∧ (run exHidden [2, 1, 0]).bad = false ∧
-    pdResolve exHidden [1, 2, 0] 1 [] [['K']] = some (.dfn [['d','d'], ['K']]) ∧
+    pdResolve exHidden [1, 2, 0] 1 [] [['K']] = some (.dfn [['q','q'], ['K']]) ∧
     pdResolve exHidden [2, 1, 0] 1 [] [['K']] = some (.dfn [['q','q'], ['K']]) ∧
     (PyImp.run exHidden [0, 1, 2]).err = true := by decide +kernel
 
